@@ -64,12 +64,21 @@ type fieldGroupGenerator struct {
 	// This field group represents a Thrift exception.
 	IsException bool
 
+	// This field group is the arguments or result struct of a service
+	// function: MethodName and EnvelopeType methods are generated for it.
+	IsEnveloper bool
+
+	// hasZap is true if MarshalLogObject is generated for this field group.
+	hasZap bool
+
 	Doc string
 }
 
 func (f fieldGroupGenerator) checkReservedIdentifier(name string) error {
 	_, match := reservedIdentifiers[name]
-	match = match || (f.IsException && name == "Error")
+	match = match || (f.IsException && (name == "Error" || name == "ErrorName"))
+	match = match || (f.IsEnveloper && (name == "MethodName" || name == "EnvelopeType"))
+	match = match || (f.hasZap && name == "MarshalLogObject")
 	if match {
 		return fmt.Errorf("%q is a reserved ThriftRW identifier", name)
 	}
@@ -77,6 +86,8 @@ func (f fieldGroupGenerator) checkReservedIdentifier(name string) error {
 }
 
 func (f fieldGroupGenerator) Generate(g Generator) error {
+	f.hasZap = !checkNoZap(g)
+
 	if err := verifyUniqueFieldLabels(f.Fields); err != nil {
 		return err
 	}
